@@ -37,6 +37,16 @@ func (b *fakeStream) RecvMsg(any) error                          { return nil }
 func (b *fakeStream) Send(*discovery.DiscoveryResponse) error    { return nil }
 func (b *fakeStream) Recv() (*discovery.DiscoveryRequest, error) { return nil, errors.New("eof") }
 
+// fakeDeltaStream is the delta twin (DeltaDiscoveryStream) over the same cancellable context.
+type fakeDeltaStream struct{ *fakeStream }
+
+func (b fakeDeltaStream) Send(*discovery.DeltaDiscoveryResponse) error { return nil }
+func (b fakeDeltaStream) Recv() (*discovery.DeltaDiscoveryRequest, error) {
+	return nil, errors.New("eof")
+}
+
+// newConns builds real *xds.Connection objects: even ids state-of-the-world, odd ids delta
+// (doSendPushes picks the "client closed" channel differently for the two kinds).
 func newConns(n int) ([]*pxds.Connection, []*fakeStream, map[*pxds.Connection]int) {
 	cons := make([]*pxds.Connection, n)
 	streams := make([]*fakeStream, n)
@@ -44,7 +54,11 @@ func newConns(n int) ([]*pxds.Connection, []*fakeStream, map[*pxds.Connection]in
 	for i := 0; i < n; i++ {
 		streams[i] = newFakeStream()
 		p := &model.Proxy{ID: "verif-proxy-" + strconv.Itoa(i), WatchedResources: map[string]*model.WatchedResource{}}
-		cons[i] = pxds.VerifNewConnection(p, streams[i])
+		if i%2 == 1 {
+			cons[i] = pxds.VerifNewDeltaConnection(p, fakeDeltaStream{streams[i]})
+		} else {
+			cons[i] = pxds.VerifNewConnection(p, streams[i])
+		}
 		idx[cons[i]] = i
 	}
 	return cons, streams, idx
